@@ -106,6 +106,16 @@ impl Channel {
         })
     }
 
+    /// Takes back the message counted by the last `send` of this thread: the
+    /// receiver had been dropped and the message was returned to the sender.
+    pub(crate) fn send_failed(&self) {
+        super::execution(|execution| {
+            let state = self.state.get_mut(&mut execution.objects);
+            state.msg_cnt = state.msg_cnt.checked_sub(1).expect("underflow");
+            state.receiver_synchronize.pop_back();
+        })
+    }
+
     pub(crate) fn recv(&self, location: Location) {
         self.state
             .branch_disable(Action::MsgRecv, self.is_empty(), location);
